@@ -107,7 +107,7 @@ def case_list():
         out.append(("floating_point_algorithms.mul_dekker[scale=%s]" % scale, "prod", dict(scale=scale)))
     out += [("utils.add_2sum", "sum", {}), ("utils.add_fast2sum", "sum", dict(fast=True)), ("utils.double_2sum", "dbl", {}), ("utils.double_fast2sum", "dbl", {}), ("utils.split_veltkamp", "split", {}), ("utils.multiply_dekker", "prod", {}), ("utils.square_dekker", "sq", {})]
     out += [("algorithms.split_veltkamp+get_veltkamp_splitter_constant", "split", {}), ("algorithms.square_dekker", "sq", {}), ("algorithms.add_2sum[fast=False]", "sum", {}), ("algorithms.add_2sum[fast=True]", "sum", dict(fast=True))]
-    out += [("apmath.two_sum", "sum", {}), ("apmath.quick_two_sum", "sum", dict(fast=True)), ("apmath.two_prod", "prod", dict(scale=True))]
+    out += [("apmath.split", "split", dict(scale=True)), ("apmath.two_sum", "sum", {}), ("apmath.quick_two_sum", "sum", dict(fast=True)), ("apmath.two_prod", "prod", dict(scale=True))]
     return out
 
 
@@ -131,6 +131,8 @@ def call(name, t, ctx, x, y):
     if base.startswith("utils."):
         f = getattr(U, base.split(".")[1])
         return f(x, y) if base.split(".")[1] in ("add_2sum", "add_fast2sum", "multiply_dekker") else f(x)
+    if base == "apmath.split":
+        return AP.split(ctx, x)
     if base == "apmath.two_sum":
         return AP.two_sum(ctx, x, y)
     if base == "apmath.quick_two_sum":
